@@ -340,6 +340,16 @@ impl LpgStore {
         EpochId::new(self.current_epoch.load(Ordering::Acquire))
     }
 
+    /// Advances the store's epoch to `epoch` if it is behind (never moves it back).
+    ///
+    /// Called when a transaction commits, so that epoch-based accessors which use
+    /// the store's own clock (`get_node`, `all_nodes`, `node_count`, ...) see
+    /// everything that has been committed.
+    pub fn advance_epoch_to(&self, epoch: EpochId) {
+        self.current_epoch
+            .fetch_max(epoch.as_u64(), Ordering::AcqRel);
+    }
+
     /// Creates a new epoch.
     pub fn new_epoch(&self) -> EpochId {
         let id = self.current_epoch.fetch_add(1, Ordering::AcqRel) + 1;
